@@ -18,6 +18,9 @@
 //!   apply streamd <ctl-bytes> <diff> <extra> <out>          -> same (ZbsdiffPatcher::new default buffer, no with_buffer_size)
 //!   apply sread <k,k,…> <buf> <ctl-bytes> <diff> <extra> <out> -> same; the old file is a Read+Seek source whose i-th
 //!                                                 read() returns at most k[i mod n] (>= 1) bytes
+//!   apply spos <pos> <k,k,…> <buf> <ctl-bytes> <diff> <extra> <out> -> same as sread; the source is handed to
+//!                                                 ZbsdiffPatcher::new at stream position <pos> (0 .. beyond the end: the caller
+//!                                                 read / hashed part of the file first). The result must not depend on <pos>.
 //!   apply noseek <buf> <ctl-bytes> <diff> <extra> <out>     -> err:seek (every seek of the source fails)
 //! whole patch BYTES (zlib is a table on the line: the model looks its own blocks / slices up, a miss is err:z-miss):
 //!   buildp simple|chunked <blk>|suffix <sa> {<inflated> <compressed>}*   -> <patch hex> | err:<class>
@@ -41,7 +44,7 @@ use cascette_formats::zbsdiff::{
     ControlBlock, ControlEntry, ZBSDIFF1_SIGNATURE, ZbsDiff, ZbsdiffBuilder, ZbsdiffError, ZbsdiffHeader,
     ZbsdiffPatcher, apply_patch_memory, compress_zlib, decompress_zlib,
 };
-use std::io::{Cursor, Read, Seek, SeekFrom};
+use std::io::{BufReader, Cursor, Read, Seek, SeekFrom};
 use std::panic::AssertUnwindSafe;
 use verif_harness::*;
 
@@ -173,13 +176,76 @@ fn apply_p(mode: Mode, old: &[u8], patch: &[u8]) -> Result<Vec<u8>, String> {
 
 /// streaming patcher over a short-reading (or unseekable) source, documented construction
 fn apply_src(ks: &[usize], seekable: bool, buf: Option<usize>, old: &[u8], patch: &[u8]) -> Result<Vec<u8>, String> {
+    apply_src_at(0, ks, seekable, buf, old, patch)
+}
+
+/// the same, the source handed to `ZbsdiffPatcher::new` at stream position `pos` (may lie beyond the end)
+fn apply_src_at(pos: u64, ks: &[usize], seekable: bool, buf: Option<usize>, old: &[u8], patch: &[u8]) -> Result<Vec<u8>, String> {
     res_p(catch(AssertUnwindSafe(|| {
         let h = ZbsdiffHeader::parse_from_patch(patch)?;
-        let src = ShortReader { data: old.to_vec(), pos: 0, ks: ks.to_vec(), calls: 0, seekable };
+        let src = ShortReader { data: old.to_vec(), pos, ks: ks.to_vec(), calls: 0, seekable };
         let p = ZbsdiffPatcher::new(src, h.output_size as usize);
         let p = match buf { Some(b) => p.with_buffer_size(b), None => p };
         p.apply_patch_from_data(patch)
     })))
+}
+
+/// how the old-file reader got to its start position before it is handed to the streaming patcher
+#[derive(Clone, Copy, Debug, PartialEq)]
+enum Pre {
+    /// `Cursor` moved with `set_position` (any position, also beyond the end)
+    CursorSet,
+    /// `Cursor` from which the caller READ `pos` bytes (e.g. to hash a prefix / the whole file)
+    CursorRead,
+    /// `BufReader<Cursor>` (64-byte buffer) from which the caller read `pos` bytes: the inner cursor
+    /// is ahead of the logical position, `stream_position()` subtracts the buffered bytes
+    BufRead,
+    /// `BufReader<Cursor>` after `seek(SeekFrom::Start(pos))`
+    BufSeek,
+}
+
+const PRES: [Pre; 4] = [Pre::CursorSet, Pre::CursorRead, Pre::BufRead, Pre::BufSeek];
+
+/// streaming patcher (documented construction) over a std reader that is at stream position `pos`
+/// (`*Read` variants: at min(pos, |old|)) when `ZbsdiffPatcher::new` receives it
+fn apply_std_at(pre: Pre, pos: u64, buf: usize, old: &[u8], patch: &[u8]) -> Result<Vec<u8>, String> {
+    res_p(catch(AssertUnwindSafe(|| {
+        let h = ZbsdiffHeader::parse_from_patch(patch)?;
+        let n = (pos as usize).min(old.len());
+        let mut sink = vec![0u8; n];
+        match pre {
+            Pre::CursorSet => {
+                let mut c = Cursor::new(old.to_vec());
+                c.set_position(pos);
+                ZbsdiffPatcher::new(c, h.output_size as usize).with_buffer_size(buf).apply_patch_from_data(patch)
+            }
+            Pre::CursorRead => {
+                let mut c = Cursor::new(old.to_vec());
+                c.read_exact(&mut sink).expect("prefix read");
+                ZbsdiffPatcher::new(c, h.output_size as usize).with_buffer_size(buf).apply_patch_from_data(patch)
+            }
+            Pre::BufRead => {
+                let mut c = BufReader::with_capacity(64, Cursor::new(old.to_vec()));
+                c.read_exact(&mut sink).expect("prefix read");
+                ZbsdiffPatcher::new(c, h.output_size as usize).with_buffer_size(buf).apply_patch_from_data(patch)
+            }
+            Pre::BufSeek => {
+                let mut c = BufReader::with_capacity(64, Cursor::new(old.to_vec()));
+                c.seek(SeekFrom::Start(pos)).expect("seek");
+                ZbsdiffPatcher::new(c, h.output_size as usize).with_buffer_size(buf).apply_patch_from_data(patch)
+            }
+        }
+    })))
+}
+
+/// start positions for an old file of n bytes: 1, 2, 16, the middle, the last byte, the end, beyond
+fn start_positions(n: usize, all: bool) -> Vec<u64> {
+    let cand: Vec<usize> = if all { vec![1, 2, 16, n / 2, n.saturating_sub(1), n, n + 1, n + 7] } else { vec![1, n / 2, n] };
+    let mut v: Vec<u64> = vec![];
+    for c in cand {
+        if c > 0 && !v.contains(&(c as u64)) { v.push(c as u64); }
+    }
+    v
 }
 
 /// the harness's own reading of the container layout (three little-endian i64 after the signature)
@@ -460,6 +526,11 @@ fn run_line(st: &mut St, toks: &[&str]) -> Option<String> {
             let ks: Vec<usize> = ks.split(',').map(|x| x.parse().ok()).collect::<Option<Vec<_>>>()?;
             let p = make_patch(&tokb(st, c)?, &tokb(st, d)?, &tokb(st, e)?, out.parse().ok()?);
             apply_resp(apply_src(&ks, true, Some(buf.parse().ok()?), &st.old, &p))
+        }
+        ["apply", "spos", pos, ks, buf, c, d, e, out] => {
+            let ks: Vec<usize> = ks.split(',').map(|x| x.parse().ok()).collect::<Option<Vec<_>>>()?;
+            let p = make_patch(&tokb(st, c)?, &tokb(st, d)?, &tokb(st, e)?, out.parse().ok()?);
+            apply_resp(apply_src_at(pos.parse().ok()?, &ks, true, Some(buf.parse().ok()?), &st.old, &p))
         }
         ["apply", "noseek", buf, c, d, e, out] => {
             let p = make_patch(&tokb(st, c)?, &tokb(st, d)?, &tokb(st, e)?, out.parse().ok()?);
@@ -771,6 +842,55 @@ fn pair(cx: &mut Ctx, rng: &mut Rng, old: &[u8], new: &[u8], blks: &[usize], lab
             let key = format!("sread|{bname}|{kst}|{bf}|{kold}|{knew}");
             s.case(if nontrivial && !old.is_empty() { Some(&key) } else { None });
         }
+        // --- reader state: the streaming patcher's result must not depend on the stream position at
+        //     which the old-file reader is handed over (the caller read / hashed part of the file, or
+        //     reuses an open handle). K: one `apply spos` line per build (short-reading source at a
+        //     position of the family); O: the patch BYTES through std readers at EVERY position of
+        //     the family 1 / 2 / 16 / middle / last byte / end / beyond the end (large old: 1 / middle
+        //     / end), reached by set_position, by reading, through a BufReader.
+        //     (seeded change C16-2d — get_old_file_size returning end - stream_position while
+        //     read_old_chunk seeks absolutely: the last p bytes of old read as zeros — slipped through
+        //     while every reader was handed over at position 0)
+        if !old.is_empty() {
+            let small = old.len() < REF_MIN;
+            let poss = start_positions(old.len(), small);
+            {
+                let pos = *rng.pick(&poss);
+                let ks: Vec<usize> = if old.len() >= cx.sread_coarse_from { vec![usize::MAX >> 1] } else {
+                    match rng.below(4) { 0 => vec![1], 1 => vec![7, 1], 2 => vec![rng.range(1, 300) as usize, rng.range(1, 9) as usize], _ => vec![usize::MAX >> 1] }
+                };
+                let bf = *rng.pick(&cx.bufs);
+                let kst = ks.iter().map(|k| k.to_string()).collect::<Vec<_>>().join(",");
+                let areq = format!("apply spos {pos} {kst} {bf} {} {} {} {}", enc(&cx.st, &craw), enc(&cx.st, &b.diff), enc(&cx.st, &b.extra), b.out);
+                // (K line: every build of a pair below 2 KiB, one in three above — the list-based model
+                //  walks old once per read; the oracle below runs on every build)
+                let k_line = !cx.klight && (old.len() < 2048 || rng.chance(1, 3));
+                if k_line { emit(s, &mut cx.st, areq.clone()); }
+                s.tally("apply.start-position.short-reading-source");
+                let got = apply_src_at(pos, &ks, true, Some(bf), old, &patch);
+                if got.as_ref().ok() != Some(&new.to_vec()) {
+                    fail(s, big, budget, &format!("start-position-wrong-output:{kind}"), &format!("{bname} patch applied by the streaming patcher (buffer {bf}) to a source handed over at stream position {pos} of {} (<= {kst} bytes per read): {} instead of new", old.len(), match &got { Ok(v) => format!("Ok with {} bytes differing from new at offset {}", v.len(), v.iter().zip(new.iter()).position(|(a, b)| a != b).unwrap_or(v.len().min(new.len()))), Err(e) => e.clone() }), &rp(&[&breq, &areq]));
+                }
+                let key = format!("spos|{bname}|{pos}|{kst}|{bf}|{kold}|{knew}");
+                s.case(if nontrivial { Some(&key) } else { None });
+            }
+            for (pi, pos) in poss.iter().enumerate() {
+                // small old: every way of getting there at positions 1 and end, one (rotating) way at the
+                // others; large: one way per position
+                let pres: Vec<Pre> = if small && (*pos == 1 || *pos as usize == old.len()) { PRES.to_vec() } else { vec![PRES[(pi + new.len()) % PRES.len()]] };
+                for pre in pres {
+                    let bf = cx.bufs[(pi + pre as usize) % cx.bufs.len()];
+                    let got = apply_std_at(pre, *pos, bf, old, &patch);
+                    s.tally(&format!("apply.start-position.{}", match *pos as usize { 1 => "1", 2 => "2", 16 => "16", x if x > old.len() => "beyond-end", x if x == old.len() => "end", x if x + 1 == old.len() => "last-byte", _ => "middle" }));
+                    if got.as_ref().ok() != Some(&new.to_vec()) {
+                        // replay line: the same position through the short-reading source (unbounded reads)
+                        let areq = format!("apply spos {pos} {} {bf} {} {} {} {}", usize::MAX >> 1, enc(&cx.st, &craw), enc(&cx.st, &b.diff), enc(&cx.st, &b.extra), b.out);
+                        fail(s, big, budget, &format!("start-position-wrong-output:{kind}"), &format!("{bname} patch applied by the streaming patcher (buffer {bf}) to a {pre:?} reader handed over at stream position {pos} of {}: {} instead of new", old.len(), match &got { Ok(v) => format!("Ok with {} bytes differing from new at offset {}", v.len(), v.iter().zip(new.iter()).position(|(a, b)| a != b).unwrap_or(v.len().min(new.len()))), Err(e) => e.clone() }), &rp(&[&breq, &areq]));
+                        break;
+                    }
+                }
+            }
+        }
         // mutated patches: Ok => exactly header.output_size bytes; memory == streaming
         // (references in their request lines resolve against the buildp line above)
         if cx.mutate && rng.chance(1, 3) {
@@ -924,6 +1044,26 @@ fn mutated(s: &mut Session, st: &mut St, rng: &mut Rng, old: &[u8], b: &Blocks, 
             (Some(mr), _) => {
                 if *mr != got {
                     s.oracle_fail("patchers-disagree", &format!("mutation {name}: memory {:?} vs streaming {:?}", mr.as_ref().map(|v| v.len()), got.as_ref().map(|v| v.len())), &with(&areq));
+                }
+            }
+        }
+        s.case(Some(&format!("mut|{areq}|{}", keyb(old))));
+    }
+    // reader state on ARBITRARY patches (seeks before 0 / beyond EOF …): streaming at a start
+    // position == memory
+    if !old.is_empty() {
+        let pos = *rng.pick(&start_positions(old.len(), true));
+        let areq = format!("apply spos {pos} {} 1024 {} {} {} {out}", usize::MAX >> 1, enc(st, &craw), enc(st, &diff), enc(st, &extra));
+        emit(s, st, areq.clone());
+        s.tally("mutated.start-position");
+        let got = apply_src_at(pos, &[usize::MAX >> 1], true, Some(1024), old, &p);
+        let pre = PRES[(pos as usize + out as usize) % PRES.len()];
+        let got2 = apply_std_at(pre, pos, 1024, old, &p);
+        if let Some(mr) = &mem {
+            for (g, how) in [(&got, "short-reading source".to_string()), (&got2, format!("{pre:?} reader"))] {
+                if mr.as_ref().ok() != g.as_ref().ok() || mr.is_ok() != g.is_ok() {
+                    s.oracle_fail("start-position-disagrees", &format!("mutation {name}: memory {:?} vs streaming over a {how} handed over at stream position {pos} of {} {:?}", mr.as_ref().map(|v| v.len()), old.len(), g.as_ref().map(|v| v.len())), &with(&areq));
+                    break;
                 }
             }
         }
@@ -1376,7 +1516,7 @@ fn main() {
     let args = Args::parse();
     quiet_panics();
     let mut s = Session::new(&args.out);
-    s.rule = "every (old,new) over {a,b} with both lengths <= L (L=4 quick, 6 thorough) x {simple, chunked blk in {0,1,4,64}, suffix, suffix under max_diff_block_size 1 / 2 [/ 3]} x {memory, streaming buf 1024[,4096]}; the SUFFIX builder under a configured max_diff_block_size on every generated pair (1-2 sizes from {1,2,3,4,7,8,16,32} / {0,1,2,5,64,256,2^20,usize::MAX}) and a dedicated stream of equal runs of 21/24/28/32/48/64/96 bytes (exact multiples >= 2x of the block sizes, and not) followed by a deletion / insertion / replacement / move / repeat / two deletions / changed run, each under ALL of {1,2,3,4,7,8,16,32} (+ 0 / usize::MAX); LARGE BLOCKS (quick: one pair per family; thorough: 40 KB / 70 KB / 200 KB each): incompressible extra block of 16383..65537 bytes around the 16 / 32 / 64 KiB boundaries (3 sizes quick, 13 thorough), 40 000 noise bytes appended / prepended / inserted, 70 144 (thorough 200 192 = 256k) noise bytes inserted, incompressible diff block (every 3rd byte of 96 000 noise bytes changed; thorough also 160 000 / 4th, 200 000 / 8th), compressible diff block (70 000 [200 000] noise bytes with 3 point edits), compressible extra block (204 800 bytes: one byte / periodic / dictionary words [/ 4-letter noise]), 200 000 unrelated noise bytes, 7 500 [9 000] control entries (control block > 32 KiB as stored; quick: oracle only, thorough: also K) and a hand-made consistent patch of 4 500 [9 000] entries with 48-bit seeks (K + length clause) — through every builder, the memory patcher and streaming buffers 1024 / 65536 / 4096 [/ 1 / 16384 / 2^20] (quick: K lines for memory + 1024 + 65536, oracle on all), with blocks of >= 4096 bytes written as references (@c @d @e @p @zc @zd @ze, @sa) on request lines and byte strings of >= 16384 bytes answered as length + FNV-1a 64; LONG SHARED RUNS: old and new sharing a prefix and / or suffix of exactly T-1 / T / T+1 bytes for T in {256, 1 KiB, 4 KiB, 8 KiB, 64 KiB} [thorough: + 512, 2 KiB, 16 KiB, 32 KiB] (the bytes next to the run differ) with unshared parts of 1 / 2-8 / 40 / 300 / 5000 bytes [/ the run length] in 17 shapes — new = old, pure leading / trailing deletion / insertion (one side a proper suffix / prefix of the other), deletion / insertion / replacement (same and other length) in the middle with |prefix| + |suffix| = the length, one side an infix of the other, the run a suffix of one side and a prefix of the other, replacement before / behind the run, two edits / two deletions between the shared ends — over noise, 2- and 4-letter alphabets, periodic contents (period 1 / 2 / 7 / 256; also old = u^n, new = u^m where shared prefix and suffix overlap) and dictionary words, every builder incl. the suffix builder under a block size, memory patcher + streaming buffers 1024 / 65536 / 4096 + short-reading source (quick: all three lengths below 4 KiB, T and one neighbour from 4 KiB on; 64 KiB row: K lines for 3 shapes, oracle only on the others; periodic contents above 4 KiB oracle only, none above 16 KiB — bsdiff's scan is quadratic there); seeded random pairs to 4 KiB (edits: insert/delete/move/repeat/replace/point, empty old, empty new, equal, unrelated; alphabets 2, 4, 256) incl. a dedicated stream whose change is followed by >= 264 unchanged bytes with the inserted length a multiple of 256 or a periodic tail (the only way the chunked builder re-synchronises after an extra run), match runs of length 3/4/5 around the >=4 threshold, block sizes around the match length; mutated patches (sizes +-1, truncated blocks, seeks before 0 / beyond EOF / saturating, dropped / appended / invalid / partial control records) for the length clause. every built patch also as WHOLE BYTES (buildp: model-assembled header + framing vs the builder's bytes; applyp through apply_patch_memory and parse_from_patch + apply_patch_from_data) and through a short-reading old source (read() returns <= 1 / 1,2,3 / 7,1 / three random sizes / unbounded bytes per call); byte-level damage of real patches (header truncated at 0..31, body truncated, signature bit, each size field set to -1 / 0 / +-1 / 1e9 / 1e9+1 / i64::MIN / i64::MAX / the bytes available, sizes swapped, diff swallowing the extra block, trailing garbage, body bit flip) for the length clause on bytes and memory == streaming; hand-made headers around every validate comparison; the private offtout / offtin at i64::MIN, MIN+1, MAX, +-0, +-2^56, +-2^62 and random magnitudes of every bit length; unseekable source; default buffer. non-trivial = built patch has a diff run or >= 2 control entries (or is a mutated patch / codec value / header probe; short-read cases need a non-empty old); distinct = (builder, patcher, old, new) text".into();
+    s.rule = "every (old,new) over {a,b} with both lengths <= L (L=4 quick, 6 thorough) x {simple, chunked blk in {0,1,4,64}, suffix, suffix under max_diff_block_size 1 / 2 [/ 3]} x {memory, streaming buf 1024[,4096]}; the SUFFIX builder under a configured max_diff_block_size on every generated pair (1-2 sizes from {1,2,3,4,7,8,16,32} / {0,1,2,5,64,256,2^20,usize::MAX}) and a dedicated stream of equal runs of 21/24/28/32/48/64/96 bytes (exact multiples >= 2x of the block sizes, and not) followed by a deletion / insertion / replacement / move / repeat / two deletions / changed run, each under ALL of {1,2,3,4,7,8,16,32} (+ 0 / usize::MAX); LARGE BLOCKS (quick: one pair per family; thorough: 40 KB / 70 KB / 200 KB each): incompressible extra block of 16383..65537 bytes around the 16 / 32 / 64 KiB boundaries (3 sizes quick, 13 thorough), 40 000 noise bytes appended / prepended / inserted, 70 144 (thorough 200 192 = 256k) noise bytes inserted, incompressible diff block (every 3rd byte of 96 000 noise bytes changed; thorough also 160 000 / 4th, 200 000 / 8th), compressible diff block (70 000 [200 000] noise bytes with 3 point edits), compressible extra block (204 800 bytes: one byte / periodic / dictionary words [/ 4-letter noise]), 200 000 unrelated noise bytes, 7 500 [9 000] control entries (control block > 32 KiB as stored; quick: oracle only, thorough: also K) and a hand-made consistent patch of 4 500 [9 000] entries with 48-bit seeks (K + length clause) — through every builder, the memory patcher and streaming buffers 1024 / 65536 / 4096 [/ 1 / 16384 / 2^20] (quick: K lines for memory + 1024 + 65536, oracle on all), with blocks of >= 4096 bytes written as references (@c @d @e @p @zc @zd @ze, @sa) on request lines and byte strings of >= 16384 bytes answered as length + FNV-1a 64; LONG SHARED RUNS: old and new sharing a prefix and / or suffix of exactly T-1 / T / T+1 bytes for T in {256, 1 KiB, 4 KiB, 8 KiB, 64 KiB} [thorough: + 512, 2 KiB, 16 KiB, 32 KiB] (the bytes next to the run differ) with unshared parts of 1 / 2-8 / 40 / 300 / 5000 bytes [/ the run length] in 17 shapes — new = old, pure leading / trailing deletion / insertion (one side a proper suffix / prefix of the other), deletion / insertion / replacement (same and other length) in the middle with |prefix| + |suffix| = the length, one side an infix of the other, the run a suffix of one side and a prefix of the other, replacement before / behind the run, two edits / two deletions between the shared ends — over noise, 2- and 4-letter alphabets, periodic contents (period 1 / 2 / 7 / 256; also old = u^n, new = u^m where shared prefix and suffix overlap) and dictionary words, every builder incl. the suffix builder under a block size, memory patcher + streaming buffers 1024 / 65536 / 4096 + short-reading source (quick: all three lengths below 4 KiB, T and one neighbour from 4 KiB on; 64 KiB row: K lines for 3 shapes, oracle only on the others; periodic contents above 4 KiB oracle only, none above 16 KiB — bsdiff's scan is quadratic there); seeded random pairs to 4 KiB (edits: insert/delete/move/repeat/replace/point, empty old, empty new, equal, unrelated; alphabets 2, 4, 256) incl. a dedicated stream whose change is followed by >= 264 unchanged bytes with the inserted length a multiple of 256 or a periodic tail (the only way the chunked builder re-synchronises after an extra run), match runs of length 3/4/5 around the >=4 threshold, block sizes around the match length; mutated patches (sizes +-1, truncated blocks, seeks before 0 / beyond EOF / saturating, dropped / appended / invalid / partial control records) for the length clause. every built patch also as WHOLE BYTES (buildp: model-assembled header + framing vs the builder's bytes; applyp through apply_patch_memory and parse_from_patch + apply_patch_from_data) and through a short-reading old source (read() returns <= 1 / 1,2,3 / 7,1 / three random sizes / unbounded bytes per call); byte-level damage of real patches (header truncated at 0..31, body truncated, signature bit, each size field set to -1 / 0 / +-1 / 1e9 / 1e9+1 / i64::MIN / i64::MAX / the bytes available, sizes swapped, diff swallowing the extra block, trailing garbage, body bit flip) for the length clause on bytes and memory == streaming; hand-made headers around every validate comparison; the private offtout / offtin at i64::MIN, MIN+1, MAX, +-0, +-2^56, +-2^62 and random magnitudes of every bit length; unseekable source; default buffer; READER STATE: every built patch (non-empty old) through the streaming patcher over a reader handed to ZbsdiffPatcher::new at a NON-ZERO stream position — 1 / 2 / 16 / middle / last byte / end / end+1 / end+7 (old >= 4 KiB: 1 / middle / end) — reached by Cursor::set_position, by reading that many bytes from a Cursor, by reading them through a 64-byte BufReader (inner cursor ahead of the logical position) and by BufReader::seek (all four ways at positions 1 and end, one rotating way at the others), result must be new; one `apply spos` K line per build (short-reading source at one position of the family; one build in three from 2 KiB of old on), and on mutated patches streaming at a start position == memory. non-trivial = built patch has a diff run or >= 2 control entries (or is a mutated patch / codec value / header probe; short-read cases need a non-empty old); distinct = (builder, patcher, old, new) text".into();
     let mut rng = Rng::new(args.seed);
     let mut st = St { old: vec![], new: vec![], last: None, patch: None, quiet: false };
 
@@ -1440,6 +1580,24 @@ fn main() {
                     s.case(Some(&l));
                 }
                 ["apply", ..] => {
+                    // reader state: the streaming patcher at a start position == the memory patcher (and
+                    // the std readers at that position) on the same blocks
+                    if let ["apply", "spos", pos, _ks, buf, c, d, e, o] = toks.as_slice() {
+                        if let (Some(c), Some(d), Some(e), Ok(o), Ok(pos), Ok(buf)) = (tokb(&st, c), tokb(&st, d), tokb(&st, e), o.parse::<i64>(), pos.parse::<u64>(), buf.parse::<usize>()) {
+                            let p = make_patch(&c, &d, &e, o);
+                            let mem = apply_resp(apply_p(Mode::Mem, &st.old, &p));
+                            let mut all = vec![("short-reading source".to_string(), r.clone())];
+                            for pre in PRES { all.push((format!("{pre:?} reader"), apply_resp(apply_std_at(pre, pos, buf, &st.old, &p)))); }
+                            for (how, got) in all {
+                                if got != mem && !(got.starts_with("err") && mem.starts_with("err")) {
+                                    println!("oracle  memory patcher -> {}", if mem.len() > 200 { &mem[..200] } else { &mem });
+                                    println!("oracle  streaming patcher over a {how} at stream position {pos} -> {}", if got.len() > 200 { &got[..200] } else { &got });
+                                    s.oracle_fail("start-position-disagrees", &format!("streaming patcher over a {how} handed over at stream position {pos} of {} differs from the memory patcher on the same patch", st.old.len()), &[format!("begin {} {}", hex(&st.old), hex(&st.new)), l.clone()]);
+                                    break;
+                                }
+                            }
+                        }
+                    }
                     // length clause on an explicit patch
                     let out: Option<i64> = toks.last().and_then(|x| x.parse().ok());
                     if let (Some(out), false) = (out, r.starts_with("err") || r == "bad-op" || r == "panic") {
@@ -1707,6 +1865,9 @@ fn main() {
         emit(cx.s, &mut cx.st, format!("apply streamd {} {} {} 40", hex(&c), hex(&d), hex(&new[..20])));
         emit(cx.s, &mut cx.st, format!("apply sread 1 1024 {} {} {} 40", hex(&c), hex(&d), hex(&new[..20])));
         emit(cx.s, &mut cx.st, format!("apply sread 3,1 1024 {} {} {} 41", hex(&c), hex(&d), hex(&new[..20])));
+        for pos in [1u64, 16, 29, 30, 31, 1 << 40] {
+            emit(cx.s, &mut cx.st, format!("apply spos {pos} 3,1 1024 {} {} {} 40", hex(&c), hex(&d), hex(&new[..20])));
+        }
         cx.s.case(None);
         for (cs, ds, os) in [(0i64, 0i64, 0i64), (5, 5, 5), (-1, 0, 0), (0, -1, 0), (0, 0, -1), (1_000_000_000, 0, 0), (1_000_000_001, 0, 0),
             (0, 1_000_000_001, 0), (0, 0, 1_000_000_001), (600_000_000, 400_000_000, 1), (600_000_000, 400_000_001, 1), (i64::MAX, i64::MAX, 0), (i64::MIN, 0, 0), (0, 0, i64::MIN), (0, 0, 1_000_000_000)] {
